@@ -1,6 +1,7 @@
 package zv
 
 import (
+	"strconv"
 	"fmt"
 	"go/constant"
 	"go/token"
@@ -643,8 +644,13 @@ func shortQual(p *types.Package) string { return p.Name() }
 func allocName(a *ssa.Alloc) string {
 	if a.Comment != "" {
 		// a value receiver spilled into a local of the same name
-		if f := a.Parent(); f != nil && f.Signature.Recv() != nil && len(f.Params) > 0 && f.Params[0].Name() == a.Comment && types.Identical(deref(a.Type()), f.Params[0].Type()) {
-			return PN(f.Params[0])
+		// a parameter (the value receiver, say) spilled into a local of the same name
+		if f := a.Parent(); f != nil {
+			for _, q := range f.Params {
+				if q.Name() == a.Comment && types.Identical(deref(a.Type()), q.Type()) {
+					return PN(q)
+				}
+			}
 		}
 		return a.Comment
 	}
@@ -671,6 +677,9 @@ var canonRecv = map[string]string{
 func PN(p *ssa.Parameter) string {
 	f := p.Parent()
 	if f == nil || f.Signature.Recv() == nil || len(f.Params) == 0 || f.Params[0] != p {
+		if cn, ok := canonParamName(p); ok {
+			return cn
+		}
 		return p.Name()
 	}
 	if rn := RecvNamed(f); rn != nil && rn.Obj().Pkg() != nil {
@@ -681,15 +690,69 @@ func PN(p *ssa.Parameter) string {
 	return p.Name()
 }
 
+// canonParamName: the name parameter p had on the reference tree (table canonParams, generated by `zapverif
+// dump-params`), when the function still exists there under the same name with the same number of parameters.
+// Renderings then do not depend on what a parameter is called.
+func canonParamName(p *ssa.Parameter) (string, bool) {
+	f := p.Parent()
+	if f == nil || f.Parent() != nil {
+		return "", false
+	}
+	names, ok := canonParams[f.String()]
+	if !ok || len(names) != len(f.Params) {
+		return "", false
+	}
+	for i, q := range f.Params {
+		if q == p {
+			return names[i], true
+		}
+	}
+	return "", false
+}
+
+// DumpParamTable renders the table of parameter names of the loaded tree as Go source.
+func DumpParamTable(p *Program) string {
+	var keys []string
+	tbl := map[string][]string{}
+	p.EachRootFunc(func(f *ssa.Function) {
+		if f.Parent() != nil || f.Synthetic != "" || len(f.Params) == 0 {
+			return
+		}
+		var ns []string
+		for _, q := range f.Params {
+			ns = append(ns, q.Name())
+		}
+		tbl[f.String()] = ns
+		keys = append(keys, f.String())
+	})
+	sort.Strings(keys)
+	var sb strings.Builder
+	sb.WriteString("// Code generated by `zapverif dump-params` on the reference tree; DO NOT EDIT.\n\npackage zv\n\n// canonParams: the parameter names every function of the analysed packages had on the reference tree.\nvar canonParams = map[string][]string{\n")
+	for _, k := range keys {
+		sb.WriteString("\t" + strconv.Quote(k) + ": {")
+		for i, n := range tbl[k] {
+			if i > 0 {
+				sb.WriteString(", ")
+			}
+			sb.WriteString(strconv.Quote(n))
+		}
+		sb.WriteString("},\n")
+	}
+	sb.WriteString("}\n")
+	return sb.String()
+}
+
 // freeVarName: a captured receiver renders like the receiver.
 func freeVarName(fv *ssa.FreeVar) string {
 	f := fv.Parent()
 	for f != nil && f.Parent() != nil {
 		f = f.Parent()
 	}
-	if f != nil && f.Signature.Recv() != nil && len(f.Params) > 0 && f.Params[0].Name() == fv.Name() {
-		if types.Identical(deref(fv.Type()), f.Params[0].Type()) || types.Identical(fv.Type(), f.Params[0].Type()) {
-			return PN(f.Params[0])
+	if f != nil {
+		for _, q := range f.Params {
+			if q.Name() == fv.Name() && (types.Identical(deref(fv.Type()), q.Type()) || types.Identical(fv.Type(), q.Type())) {
+				return PN(q)
+			}
 		}
 	}
 	return fv.Name()
@@ -745,7 +808,7 @@ func singleStore(a *ssa.Alloc) ssa.Value {
 func fieldName(t types.Type, idx int) string {
 	t = deref(t)
 	if st, ok := t.Underlying().(*types.Struct); ok && idx < st.NumFields() {
-		return st.Field(idx).Name()
+		return FN(st.Field(idx))
 	}
 	return fmt.Sprintf("f%d", idx)
 }
@@ -1188,4 +1251,116 @@ func nonNegative(v ssa.Value) bool {
 		}
 	}
 	return false
+}
+
+// fieldCanon: the name every field of a named struct of the analysed packages is rendered under - its name on the
+// reference tree (table canonFields, generated by `zapverif dump-fields`). A field whose name the reference struct
+// does not have is matched to the one reference field of the same type that the current struct no longer has; fields
+// that cannot be matched keep their own name. Filled by InitFieldCanon at load time.
+var fieldCanon = map[*types.Var]string{}
+
+func fieldTypeString(t types.Type) string {
+	return types.TypeString(t, func(p *types.Package) string { return p.Name() })
+}
+
+// FN: the canonical name of a struct field (see fieldCanon).
+func FN(v *types.Var) string {
+	if v == nil {
+		return ""
+	}
+	if cn, ok := fieldCanon[v.Origin()]; ok {
+		return cn
+	}
+	return v.Name()
+}
+
+func eachNamedStruct(p *Program, f func(key string, st *types.Struct)) {
+	var paths []string
+	for path := range p.Pkgs {
+		paths = append(paths, path)
+	}
+	sort.Strings(paths)
+	for _, path := range paths {
+		pk := p.Pkgs[path]
+		if pk.Types == nil || !strings.HasPrefix(path, ZapPath) {
+			continue
+		}
+		sc := pk.Types.Scope()
+		for _, n := range sc.Names() {
+			tn, ok := sc.Lookup(n).(*types.TypeName)
+			if !ok || tn.IsAlias() {
+				continue
+			}
+			if st, ok := tn.Type().Underlying().(*types.Struct); ok {
+				f(pk.Types.Name()+"."+n, st)
+			}
+		}
+	}
+}
+
+func InitFieldCanon(p *Program) {
+	eachNamedStruct(p, func(key string, st *types.Struct) {
+		ref, ok := canonFields[key]
+		if !ok {
+			return
+		}
+		refNames := map[string]bool{}
+		for _, r := range ref {
+			refNames[r[0]] = true
+		}
+		cur := map[string]bool{}
+		for i := 0; i < st.NumFields(); i++ {
+			cur[FN(st.Field(i))] = true
+		}
+		for i := 0; i < st.NumFields(); i++ {
+			f := st.Field(i)
+			if refNames[f.Name()] {
+				continue
+			}
+			ts := fieldTypeString(f.Type())
+			// the reference fields of this type that are gone, and the current fields of this type that are new
+			var gone []string
+			for _, r := range ref {
+				if !cur[r[0]] && r[1] == ts {
+					gone = append(gone, r[0])
+				}
+			}
+			fresh := 0
+			for j := 0; j < st.NumFields(); j++ {
+				if g := st.Field(j); !refNames[g.Name()] && fieldTypeString(g.Type()) == ts {
+					fresh++
+				}
+			}
+			// one candidate, or as many as there are new fields of the type: matched in declaration order
+			if len(gone) == fresh {
+				k := 0
+				for j := 0; j < i; j++ {
+					if g := st.Field(j); !refNames[g.Name()] && fieldTypeString(g.Type()) == ts {
+						k++
+					}
+				}
+				fieldCanon[f] = gone[k]
+			}
+		}
+	})
+}
+
+func DumpFieldTable(p *Program) string {
+	var sb strings.Builder
+	sb.WriteString("// Code generated by `zapverif dump-fields` on the reference tree; DO NOT EDIT.\n\npackage zv\n\n// canonFields: name and type of every field of every named struct of the analysed packages on the reference tree.\nvar canonFields = map[string][][2]string{\n")
+	eachNamedStruct(p, func(key string, st *types.Struct) {
+		if st.NumFields() == 0 {
+			return
+		}
+		sb.WriteString("\t" + strconv.Quote(key) + ": {")
+		for i := 0; i < st.NumFields(); i++ {
+			if i > 0 {
+				sb.WriteString(", ")
+			}
+			sb.WriteString("{" + strconv.Quote(FN(st.Field(i))) + ", " + strconv.Quote(fieldTypeString(st.Field(i).Type())) + "}")
+		}
+		sb.WriteString("},\n")
+	})
+	sb.WriteString("}\n")
+	return sb.String()
 }
